@@ -423,7 +423,12 @@ func vRBACURI(s string) *url.URL {
 	return &url.URL{Opaque: s}
 }
 
-func (r *vRBACRd) request() context.Context {
+func (r *vRBACRd) request() context.Context { return r.requestD(0) }
+
+// requestD builds the context with one ingredient left out:
+// 1 no metadata, 2 no peer, 3 no transport stream (method), 4 no connection,
+// 5 a local address without a port (unix socket listener).
+func (r *vRBACRd) requestD(defect int64) context.Context {
 	path := r.str()
 	hs := r.headers()
 	isTLS := r.b()
@@ -442,7 +447,10 @@ func (r *vRBACRd) request() context.Context {
 	for _, h := range hs {
 		md[h.Key] = h.Values
 	}
-	ctx := metadata.NewIncomingContext(context.Background(), md)
+	ctx := context.Background()
+	if defect != 1 {
+		ctx = metadata.NewIncomingContext(ctx, md)
+	}
 	p := &peer.Peer{Addr: vRBACNetAddr(rfam, rb, 40000)}
 	if isTLS {
 		info := credentials.TLSInfo{}
@@ -458,11 +466,29 @@ func (r *vRBACRd) request() context.Context {
 		}
 		p.AuthInfo = info
 	}
-	ctx = peer.NewContext(ctx, p)
-	ctx = grpc.NewContextWithServerTransportStream(ctx, &vRBACStream{method: path})
-	ctx = transport.SetConnection(ctx, &vRBACConn{local: vRBACNetAddr(lfam, lb, int(lport))})
+	if defect != 2 {
+		ctx = peer.NewContext(ctx, p)
+	}
+	if defect != 3 {
+		ctx = grpc.NewContextWithServerTransportStream(ctx, &vRBACStream{method: path})
+	}
+	switch defect {
+	case 4:
+	case 5:
+		ctx = transport.SetConnection(ctx, &vRBACConn{local: vRBACNetAddr(0, nil, 0)})
+	default:
+		ctx = transport.SetConnection(ctx, &vRBACConn{local: vRBACNetAddr(lfam, lb, int(lport))})
+	}
 	return ctx
 }
+
+// vRBACSS is the ServerStream handed to StreamInterceptor.
+type vRBACSS struct {
+	grpc.ServerStream
+	ctx context.Context
+}
+
+func (s *vRBACSS) Context() context.Context { return s.ctx }
 
 // ---------------------------------------------------------------- exec
 
@@ -544,12 +570,42 @@ func vRBACExec(cfg []int64, ops [][]int64) ([][]int64, bool, []string) {
 				tagset[fmt.Sprintf("sdk-%d", code)] = true
 			}
 			obs = append(obs, []int64{code})
+		case 4:
+			if len(op) < 3 || op[1] < 0 || op[1] > 5 || op[2] < 0 || op[2] > 1 {
+				obs = append(obs, []int64{})
+				continue
+			}
+			r = &vRBACRd{w: op[3:]}
+			ctx := r.requestD(op[1])
+			if r.bad || len(r.w) != 0 {
+				obs = append(obs, []int64{})
+				continue
+			}
+			code, invoked := int64(3), false
+			switch {
+			case chain != nil:
+				err := chain.IsAuthorized(ctx)
+				code, invoked = vRBACCode(err), err == nil
+			case static != nil && op[2] == 0:
+				_, err := static.UnaryInterceptor(ctx, nil, nil, func(context.Context, any) (any, error) { invoked = true; return nil, nil })
+				code = vRBACCode(err)
+			case static != nil:
+				err := static.StreamInterceptor(nil, &vRBACSS{ctx: ctx}, nil, func(any, grpc.ServerStream) error { invoked = true; return nil })
+				code = vRBACCode(err)
+			}
+			if op[1] != 0 && (chain != nil || static != nil) {
+				tagset["incomplete-ctx"] = true
+			}
+			if invoked {
+				tagset["handler-run"] = true
+			}
+			obs = append(obs, []int64{code, vB(invoked)})
 		default:
 			obs = append(obs, []int64{})
 		}
 	}
 	var tags []string
-	for _, t := range []string{"chain-0", "chain-1", "chain-2", "sdk-0", "sdk-1", "sdk-2", "load-fail", "sdk-reject"} {
+	for _, t := range []string{"chain-0", "chain-1", "chain-2", "sdk-0", "sdk-1", "sdk-2", "load-fail", "sdk-reject", "incomplete-ctx", "handler-run"} {
 		if tagset[t] {
 			tags = append(tags, t)
 		}
@@ -874,6 +930,17 @@ func vRBACGenSdk(r *vRand) []int64 {
 
 func vRBACGenReq(r *vRand) []int64 { return vRBACGenReqK(r, -1) }
 
+// vRBACGenCall: the same request run through the interceptor with a recording handler,
+// half of the time with an incomplete context.
+func vRBACGenCall(r *vRand) []int64 {
+	req := vRBACGenReq(r)
+	defect := int64(0)
+	if r.Bool() {
+		defect = int64(1 + r.Intn(5))
+	}
+	return vCat([]int64{4, defect, int64(r.Intn(2))}, req[1:])
+}
+
 // vRBACGenReqK: a request whose first header has key vRBACKeys[key] (when key >= 0).
 func vRBACGenReqK(r *vRand, key int) []int64 {
 	out := vCat([]int64{3}, vRBACStr(vRBACPick(r, vRBACPaths)))
@@ -947,6 +1014,13 @@ func vRBACFixed() [][]int64 {
 	ops = append(ops, vCat([]int64{2}, vRBACStr("p"), []int64{2}, srule("r", nil, []string{"/a/deny1"}), srule("s", nil, []string{"/a/deny2"}),
 		[]int64{2}, srule("r", []string{"spiffe://foo.com/*"}, []string{"/a/*"}), srule("s", nil, []string{"*/ok"})))
 	ops = append(ops, reqs...)
+	for _, q := range [][]int64{reqs[2], reqs[0]} { // allowed by the policy / denied by it
+		for defect := int64(0); defect <= 5; defect++ {
+			for via := int64(0); via < 2; via++ {
+				ops = append(ops, vCat([]int64{4, defect, via}, q[1:]))
+			}
+		}
+	}
 	// DENY {remote in 10.0.0.0/24 and not path /a/deny2}, ALLOW {any, authenticated foo.com-suffix or header k1 = "v1,v2"}
 	ops = append(ops, vCat([]int64{1, 2},
 		[]int64{1, 1, 1}, []int64{3, 6, 1, 0}, vRBACStr("/a/deny2"), []int64{1, 12, 0, 4, 0x0A000000, 24},
@@ -1050,6 +1124,9 @@ func vRBACGen(r *vRand, tier string, idx int) ([]int64, [][]int64) {
 		}
 		for i := 0; i < 8; i++ {
 			ops = append(ops, vRBACGenReq(r))
+		}
+		for i := 0; i < 4; i++ {
+			ops = append(ops, vRBACGenCall(r))
 		}
 	}
 	return nil, ops
